@@ -9,7 +9,7 @@ import shutil
 import subprocess
 import sys
 
-from . import check_c17, check_c19, check_gen, check_image, check_srcimage, codec_check, common, emit_order
+from . import check_c17, check_c18, check_c19, check_c20, check_gen, check_image, check_srcimage, codec_check, common, emit_order
 from .pyside import encode
 
 OK, BAD = [], []
@@ -56,6 +56,61 @@ def codec(work):
     d = copy.deepcopy(doc)
     d["sessions"][ctor]["ev"][1]["w"]["f"].pop("kind", None)                 # the literal discriminator missing from the ctor output
     expect("CodecTrace ctor output", judge(d), "U_keys")
+    mut = next((i for i, s in enumerate(doc["sessions"]) if s["sk"] == "mutate" and len(s["ev"]) == 4), None)
+    if mut is None:
+        BAD.append("CodecTrace: no mutate session was recorded")
+    else:
+        d = copy.deepcopy(doc)
+        d["sessions"][mut]["ev"][3]["w"] = d["sessions"][mut]["ev"][1]["w"]   # the output after the assignment replaced by the one before it
+        expect("CodecTrace output after assignment", judge(d), "U_exact")
+
+
+def machine(work):
+    hists = [{"init": [[1, 1], [1, 1]], "hist": [{"a": "cmp", "o": 1, "p": 2}, {"a": "set", "o": 1, "f": "line", "v": 2}, {"a": "cmp", "o": 1, "p": 2}, {"a": "cmpr", "w": "swap"}]}]
+    hp, tp = os.path.join(work, "mh.json"), os.path.join(work, "mt.json")
+    json.dump(hists, open(hp, "w"))
+    env = dict(os.environ, PYTHONPATH=os.path.join(common.REPO, "packages", "python"))
+    subprocess.run([common.PY, "-c", check_c20.MACHINE, hp, tp], env=env, check=True)
+    runs = json.load(open(tp))
+
+    def judge(rs):
+        p2 = os.path.join(work, "mt2.json")
+        json.dump(rs, open(p2, "w"))
+        n = sum(len(r["events"]) for r in rs)
+        rc, out = common.run_tlc("PositionMachine", "CONSTANTS MaxLen = 0 NRuns = %d NEvents = %d\nINIT TInit\nNEXT TStep\nPOSTCONDITION AllConsumed\nCHECK_DEADLOCK FALSE\n" % (len(rs), n), env={"POSM_TRACE": p2})
+        assert '"@DONE' in out, out[-1500:]
+        return list(common.tagged_lines(out, "@F"))
+    expect("PositionMachine", judge(runs), None)
+    r2 = copy.deepcopy(runs)
+    r2[0]["events"][2]["gt"] = "F"                                           # the comparison after the assignment reports the old order
+    expect("PositionMachine comparison", judge(r2), "P_order")
+    r3 = copy.deepcopy(runs)
+    r3[0]["events"][1]["v"] = 0                                              # the recorded assignment is not the one that was made
+    expect("PositionMachine assignment", judge(r3), "P_order")
+
+
+def modelload(work):
+    schema, zoo = check_c18._schema(), check_c18.zoo_doc()
+    (ctx, d2), = check_c18.grammar_edits(schema, zoo, "OrType", "items", "drop_last", cap=1)
+    zp, bp, zenc = os.path.join(work, "zoo.json"), os.path.join(work, "zb.json"), os.path.join(work, "zoo-enc.json")
+    json.dump(zoo, open(zp, "w"))
+    json.dump(d2, open(bp, "w"))
+    json.dump(encode(zoo), open(zenc, "w"))
+    r = check_c18.run_eqg(zp, [bp], work, "st")[0]
+    ev = {"e": "EqG", "def": "OrType", "key": "items", "op": "drop_last", "ctx": ctx, "b": encode(d2), "ab": r["ab"], "ba": r["ba"], "ne": r["ne"], "detail": ""}
+    lg = {"e": "LoadG", "def": "OrType", "key": "items", "op": "drop_last", "ctx": ctx, "b": encode(d2), "readback": encode(r["rb"]), "ok": True, "detail": "ok"}
+
+    def judge(evs):
+        tp = os.path.join(work, "ml.json")
+        json.dump(evs, open(tp, "w"))
+        rc, out = common.run_tlc("ModelLoad", "CONSTANTS NEvents = %d\nINIT TInit\nNEXT Step\nPOSTCONDITION AllConsumed\nCHECK_DEADLOCK FALSE\n" % len(evs), env={"MODEL_TRACE": tp, "MODEL_ZOO": zenc})
+        assert '"@DONE' in out, out[-1500:]
+        return list(common.tagged_lines(out, "@F"))
+    expect("ModelLoad", judge([lg, ev]), None)
+    e2 = dict(ev, ba="T")                                                    # one direction of the comparison reported equal
+    expect("ModelLoad equality", judge([lg, e2]), "E_diff")
+    l2 = dict(lg, readback=encode(zoo))                                      # the read-back is the unedited document
+    expect("ModelLoad read-back", judge([l2, ev]), "L_lossless")
 
 
 def history(work):
@@ -147,7 +202,7 @@ def vectors(work):
 def main():
     work = common.scratch("selftest-")
     try:
-        for fn in (codec, history, pipeline, images, vectors):
+        for fn in (codec, history, pipeline, images, vectors, machine, modelload):
             try:
                 fn(work)
             except Exception as e:  # noqa: BLE001
